@@ -133,9 +133,9 @@ def prepare():
     mB = base.replace(dataset=dsB)
     variants = [
         ('base', mA, 0, False),
-        ('peri', add_peripheral_compartment(mA), 1, False),
+        ('peri_2.0', add_peripheral_compartment(mA), 1, False),
         ('addi', set_additive_error_model(mA), 2, False),
-        ('inits', set_initial_estimates(mA, {'POP_CL': 0.006}), 3, False),
+        ('inits.v2-a', set_initial_estimates(mA, {'POP_CL': 0.006}), 3, False),
         ('big', mB, 4, False),
         ('bigaddi', set_additive_error_model(mB), 5, False),
         ('fitted', set_initial_estimates(mA, {'POP_VC': 1.2}), 0, True),
@@ -148,6 +148,14 @@ def prepare():
     for idx, (name, model, d, with_res) in enumerate(variants):
         model = model.replace(name=name, description=DESCRIPTIONS[d])
         res = create_dummy_modelfit_results(model) if with_res else None
+        if res is not None and name in ('bigfit', 'fitted2'):
+            # a results log with more than ten entries (warnings and errors, in this order)
+            import dataclasses
+            from pharmpy.workflows.log import Log
+            lg = Log()
+            for n_ in range(13):
+                lg = lg.log_warning(f'warning {n_}') if n_ % 3 else lg.log_error(f'error {n_}, "quoted"')
+            res = dataclasses.replace(res, log=lg)
         me = ModelEntry.create(model, modelfit_results=res)
         key = str(ModelHash(model))
         POOL.append({'idx': idx, 'name': name, 'model': model, 'me': me, 'key': key,
@@ -178,7 +186,11 @@ def prepare():
         g['model'] = me.model
         g['hash'] = str(ModelHash(me.model))
         if e['has_results']:
-            e['results_json'] = me.modelfit_results.to_json()
+            # results are compared with what was STORED (the round trip through results.json is
+            # exact on the pinned tree), not with a golden retrieve
+            e['results_json'] = e['me'].modelfit_results.to_json()
+            assert me.modelfit_results.to_json() == e['results_json'], \
+                f'results of {e["name"]} do not survive a fault-free store+retrieve'
     shutil.rmtree(gdir, ignore_errors=True)
     _MEMO.clear()
     keys = [e['key'] for e in POOL[:8]]
